@@ -283,6 +283,26 @@ def run(ctx):
                      'a section read from disk is layered with dict.update, which replaces nested values wholesale: the most specific section\'s `Ignore` mapping REPLACES the '
                      'inherited one instead of being merged path by path (Diff: {/metadata: [foo]} is lost as soon as GitDiff has an Ignore of its own)', shallow[0])
             disk_ups = shallow
+    _disk_names = set()
+    if not disk_ups:
+        # layered by walking the FILE mapping (for name, values in disk_config.items(): if name in <sections>: recursive_update(config, values))?
+        disk_names = {t.id for st_ in walk_no_nested(bc) if isinstance(st_, ast.Assign) and isinstance(st_.value, ast.Call) and last_attr(st_.value) == '_load_config_files'
+                      for t in st_.targets if isinstance(t, ast.Name)}
+        for l_ in loops:        # ... or the mapping the loaded files are accumulated into
+            if any(isinstance(x, ast.Call) and last_attr(x) == '_load_config_files' for x in ast.walk(l_.iter)):
+                for st_ in l_.body:
+                    for c in ast.walk(st_):
+                        if isinstance(c, ast.Call) and ('func', RU) in cg.resolve(c.func, bc) and c.args and isinstance(c.args[0], ast.Name):
+                            disk_names.add(c.args[0].id)
+        _disk_names = disk_names
+        for l_ in loops:
+            if disk_names and any(isinstance(x, ast.Name) and x.id in disk_names for x in ast.walk(l_.iter)) and not over_mro(l_.iter):
+                ups = [c for st_ in l_.body for c in ast.walk(st_) if isinstance(c, ast.Call) and ('func', RU) in cg.resolve(c.func, bc)]
+                if ups:
+                    ctx.inst('R19.3', CFGM + ':build_config', repo.norm(l_)[:90], False,
+                             'the sections read from disk are layered in the order the FILES present them (a loop over the loaded mapping), not from the most general to the most '
+                             'specific class of the entry point: when two sections of one lineage set the same option, the one met later wins, not the more specific one', ups[0])
+                    disk_ups = ups
     if not disk_ups:
         raise AnalysisError('build_config: no update from a disk section named after the class')
 
@@ -325,7 +345,10 @@ def run(ctx):
              'class defaults first, then the disk section of the same name' if ok else 'class defaults and the disk section of a class are not applied together (defaults, then disk) per class', ml)
     disk_sub = [n for n in ast.walk(ml) if isinstance(n, ast.Subscript) and isinstance(n.slice, ast.Attribute) and n.slice.attr == '__name__']
     ok = bool(disk_sub) and all(dotted(s.slice.value) == ast.unparse(ml.target) for s in disk_sub)
-    ctx.inst('R19.3', CFGM + ':build_config', 'disk section key = %s' % (repo.norm(disk_sub[0].slice) if disk_sub else '?'), ok,
+    if not disk_sub and _disk_names:
+        pass        # the sections are not looked up inside the class loop at all: reported above (layered in file order)
+    else:
+      ctx.inst('R19.3', CFGM + ':build_config', 'disk section key = %s' % (repo.norm(disk_sub[0].slice) if disk_sub else '?'), ok,
              'a class reads the section named after itself' if ok else 'section lookup is not by class name', ml)
     # the search path: the local that holds jupyter_config_path() and is handed to _load_config_files
     lcf = [c for c in calls_in(bc) if last_attr(c) == '_load_config_files']
@@ -459,6 +482,7 @@ def run(ctx):
                  'the working directory loses its precedence when it is also a jupyter config directory', loads[0])
     dl = [l for l in loops if l not in mloops and any(isinstance(c, ast.Call) and last_attr(c) == '_load_config_files' for c in ast.walk(l.iter))]
     acc_names = {x.value.id for x in ast.walk(bc) if isinstance(x, ast.Subscript) and isinstance(x.value, ast.Name) and isinstance(x.slice, ast.Attribute) and x.slice.attr == '__name__'}
+    acc_names |= _disk_names
     ok = len(dl) == 1 and any(('func', RU) in cg.resolve(c.func, bc) and dotted(c.args[0]) in acc_names for c in calls_in(dl[0]))
     ctx.inst('R19.3', CFGM + ':build_config', 'disk config = recursive_update over the files in yielded order', ok,
              'later files overwrite earlier ones key by key' if ok else 'file configs are not merged by recursive_update', dl[0] if dl else bc)
